@@ -80,13 +80,22 @@ class World(EventDispatcher):
             while entity_id in self._entities:
                 entity_id = next(self.id_generator)
 
+        # Components of this same call replaced by a later one of the
+        # same type: their removal is announced after their addition
+        replaced = []
+
         # Code duplication for performance, see add_component
         for component in components:
             component_type = type(component)
 
             # Manage replaced components
-            if component_type in self._entities.get(entity_id, {}):
-                self._remove_replaced_component(entity_id, component_type)
+            old = self._entities.get(entity_id, {}).get(component_type)
+            if old is not None:
+                if any(old is other for other in components):
+                    replaced.append(old)
+                else:
+                    self._remove_replaced_component(entity_id,
+                                                    component_type)
 
             if component_type not in self._components:
                 self._components[component_type] = set()
@@ -118,6 +127,21 @@ class World(EventDispatcher):
                     self.dispatch(ON_SINGLE_DISPATCH_EVENT_NAME,
                                   ON_ADD_EVENT_NAME,
                                   component, entity_id, self)
+
+        for component in replaced:
+            if hasattr(component, '__events__'):
+                if ON_REMOVE_EVENT_NAME in component.__events__:
+                    if self._dispatch_enabled:
+                        getattr(
+                            component,
+                            component.__events__[ON_REMOVE_EVENT_NAME])(
+                                entity_id, self)
+                    else:
+                        self.dispatch(ON_SINGLE_DISPATCH_EVENT_NAME,
+                                      ON_REMOVE_EVENT_NAME,
+                                      component, entity_id, self)
+
+                self.remove_handler(component)
 
         return entity_id
 
